@@ -10,8 +10,22 @@ import copy
 
 
 def explore(init_obj, init_model, ops, step, canon, check_state=None, max_depth=None, max_states=200000,
-            clone=copy.deepcopy, sample_n=3):
-    """step(obj_copy, model, op) -> (new_model, [ (key,msg) violations on this transition ], observation)."""
+            clone=copy.deepcopy, sample_n=3, factory=None):
+    """step(obj, model, op) -> (new_model, [ (key,msg) violations on this transition ], observation).
+
+    Two ways to obtain the successor of a state:
+      clone (default)  the live object is deep-copied and the operation applied to the copy;
+      factory          stateless replay: factory() builds a FRESH real object and the whole history plus the new operation
+                       is re-executed on it (no copying at all).  This is the faithful mode for objects whose behaviour
+                       can depend on object identity (e.g. functools.lru_cache on methods is keyed by `self`, so a deep
+                       copy silently gets a cold cache); check_state then receives a `rebuild` callable as 4th argument.
+    """
+    def rebuild(hist):
+        obj, model = factory()
+        for o in hist:
+            model, _, _ = step(obj, model, o)
+        return obj, model
+
     k0 = (canon(init_obj), init_model)
     seen = {k0: ()}
     frontier = collections.deque([(init_obj, init_model, ())])
@@ -25,14 +39,18 @@ def explore(init_obj, init_model, ops, step, canon, check_state=None, max_depth=
         obj, model, hist = frontier.popleft()
         maxd = max(maxd, len(hist))
         if check_state is not None:
-            for key, msg in check_state(obj, model, hist):
+            res = check_state(obj, model, hist, rebuild) if factory is not None else check_state(obj, model, hist)
+            for key, msg in res:
                 viol.append({'key': key, 'msg': msg, 'hist': list(hist)})
         if max_depth is not None and len(hist) >= max_depth:
             bound_hit = 'max_depth=%d' % max_depth
             continue
         for op in ops:
-            o2 = clone(obj)
-            m2, vs, obs = step(o2, model, op)
+            if factory is not None:
+                o2, m_before = rebuild(hist)
+            else:
+                o2, m_before = clone(obj), model
+            m2, vs, obs = step(o2, m_before, op)
             transitions += 1
             observations[(repr(op)[:40], repr(obs)[:80])] += 1
             h2 = hist + (op,)
@@ -51,5 +69,79 @@ def explore(init_obj, init_model, ops, step, canon, check_state=None, max_depth=
     if not samples:
         samples = [list(h) for h in list(seen.values())[-sample_n:]]
     return {'states': len(seen), 'transitions': transitions, 'max_depth': maxd,
+            'closure_reached': bound_hit is None, 'bound': bound_hit, 'violations': viol,
+            'distinct_observations': len(observations), 'samples': samples}
+
+
+# ----------------------------------------------------------------------------- parallel stateless-replay BFS
+_PAR = None
+
+
+def _expand(hist):
+    ops, step, canon, factory = _PAR
+    out = []
+    for op in ops:
+        obj, model = factory()
+        for o in hist:
+            model, _, _ = step(obj, model, o)
+        m2, vs, obs = step(obj, model, op)
+        out.append((op, canon(obj), m2, vs, repr(obs)[:80]))
+    return hist, out
+
+
+def explore_replay_parallel(ops, step, canon, factory, jobs=8, max_depth=None, max_states=500000, sample_n=3):
+    """Level-synchronous BFS in stateless-replay mode, expansions distributed over a fork pool.
+
+    Every state is represented by the shortest history that reaches it; a worker rebuilds the state by replaying that
+    history on a FRESH real object (factory) and applies each operation of the alphabet (no object is ever copied).
+    The parent deduplicates by (canon, model).  Runs to closure (no new state in a level) or to the stated bound."""
+    import multiprocessing
+    global _PAR
+    _PAR = (ops, step, canon, factory)
+    obj0, model0 = factory()
+    seen = {(canon(obj0), model0): ()}
+    level = [()]
+    transitions = 0
+    viol = []
+    observations = collections.Counter()
+    bound_hit = None
+    depth = 0
+    samples = []
+    ctx = multiprocessing.get_context('fork')
+    pool = ctx.Pool(jobs) if jobs > 1 else None
+    try:
+        while level:
+            if max_depth is not None and depth >= max_depth:
+                bound_hit = 'max_depth=%d' % max_depth
+                break
+            it = pool.imap(_expand, level, chunksize=max(1, len(level) // (jobs * 4))) if pool else map(_expand, level)
+            nxt = []
+            for hist, outs in it:
+                for op, key, m2, vs, obs in outs:
+                    transitions += 1
+                    observations[(repr(op)[:40], obs)] += 1
+                    h2 = hist + (op,)
+                    for k, msg in vs:
+                        viol.append({'key': k, 'msg': msg, 'hist': list(h2)})
+                    k2 = (key, m2)
+                    if k2 not in seen:
+                        if len(seen) >= max_states:
+                            bound_hit = 'max_states=%d' % max_states
+                            continue
+                        seen[k2] = h2
+                        nxt.append(h2)
+                        if len(samples) < sample_n and len(h2) >= 3 and len(seen) % 11 == 0:
+                            samples.append(list(h2))
+            level = nxt
+            if level:
+                depth += 1
+    finally:
+        if pool:
+            pool.terminate()
+            pool.join()
+    viol.sort(key=lambda v: len(v['hist']))
+    if not samples:
+        samples = [list(h) for h in list(seen.values())[-sample_n:]]
+    return {'states': len(seen), 'transitions': transitions, 'max_depth': depth,
             'closure_reached': bound_hit is None, 'bound': bound_hit, 'violations': viol,
             'distinct_observations': len(observations), 'samples': samples}
